@@ -50,6 +50,66 @@ def self_fields(node: ast.AST) -> set[str]:
     return {n.attr for n in ast.walk(node) if isinstance(n, ast.Attribute) and is_name(n.value, "self")}
 
 
+def conditional_report(fn_node, fld: str):
+    """None when ``self.<fld>`` is handed to the analyser by this ``children()`` / ``expressions()``
+    under no condition other than on the field itself; otherwise a description of what its
+    being reported depends on (another field's value, a ``break`` out of a loop over several
+    fields, ...)."""
+    from ..guards import conditions
+
+    def foreign(cond, own: set[str]) -> bool:
+        """the conjunct mentions a self field other than the field, or a local other than `own`"""
+        for n in ast.walk(cond):
+            if isinstance(n, ast.Attribute) and is_name(n.value, "self") and n.attr != fld:
+                return True
+            if isinstance(n, ast.Name) and n.id not in own and n.id not in ("self", "isinstance", "None", "len", "bool", "list", "tuple", "str", "Expression", "Path", "Node", "BlockNode", "hasattr"):
+                return True
+        return False
+
+    def mentions(e, name=None) -> bool:
+        for n in ast.walk(e):
+            if name is None and isinstance(n, ast.Attribute) and is_name(n.value, "self") and n.attr == fld:
+                return True
+            if name is not None and isinstance(n, ast.Name) and n.id == name:
+                return True
+        return False
+
+    reasons = []
+    conds = conditions(fn_node)
+    # loops over a literal tuple/list of several values that includes the field
+    loop_of: dict[int, tuple] = {}
+    for n in walk_no_nested(fn_node):
+        if isinstance(n, (ast.For, ast.AsyncFor)) and isinstance(n.iter, (ast.Tuple, ast.List)) and len(n.iter.elts) >= 2 and mentions(n.iter) and isinstance(n.target, ast.Name):
+            early = [x for x in ast.walk(n) if isinstance(x, (ast.Break, ast.Return))]
+            for x in ast.walk(n):
+                loop_of[id(x)] = (n.target.id, bool(early))
+    any_site = False
+    for st, cs in conds:
+        if isinstance(st, (ast.If, ast.For, ast.AsyncFor, ast.While, ast.With, ast.Try)):
+            continue
+        via = loop_of.get(id(st))
+        if mentions(st):
+            own: set[str] = set()
+        elif via is not None and mentions(st, via[0]):
+            own = {via[0]}
+        else:
+            continue
+        # only statements that hand something on: return / yield / append / extend / list build
+        hands_on = isinstance(st, ast.Return) or (isinstance(st, ast.Expr) and (isinstance(st.value, (ast.Yield, ast.YieldFrom)) or (isinstance(st.value, ast.Call) and callee_name(st.value) in ("append", "extend", "add", "insert")))) or isinstance(st, (ast.Assign, ast.AnnAssign, ast.AugAssign))
+        if not hands_on:
+            continue
+        any_site = True
+        bad = [text(c)[:40] for c in cs if foreign(c, own)]
+        if via is not None and own and via[1]:
+            bad.append(f"a `break`/`return` inside the loop over `{via[0]}`: an earlier element that is None stops the later ones from being reported")
+        if not bad:
+            return None
+        reasons.append("; ".join(bad))
+    if not any_site:
+        return None  # not mentioned at all: reported by the membership rule
+    return reasons[0] if reasons else None
+
+
 def evaluated_fields(fn_node) -> dict[str, int]:
     """self.<f> whose value (or whose items) get .evaluate*() called, or is passed to
     context.resolve(...)."""
@@ -260,6 +320,9 @@ def run(repo: Repo) -> Result:
             for fld, line in ev.items():
                 res.ob(f"expr:{c.qual}.{fld}")
                 if fld in expr_fields:
+                    why = conditional_report(expr_m.node, fld) if expr_m is not None else None
+                    if why is not None:
+                        res.add("C19-EXPR", c.qual, f"{fld}:conditional", f"{r.qual} evaluates `self.{fld}` whenever it is set, but {c.name}.expressions() reports it only under a condition on something else ({why})", expr_m.file, expr_m.line)
                     continue
                 if fld in child_fields and (id(r.node), fld) in VIA_ITEMS:
                     continue  # items are child nodes (elsif blocks) that report their own expressions
@@ -327,6 +390,9 @@ def run(repo: Repo) -> Result:
             for fld, line in evaluated_fields(e.node).items():
                 res.ob(f"subexpr:{c.qual}.{fld}")
                 if fld in ch_fields:
+                    why = conditional_report(ch.node, fld)
+                    if why is not None:
+                        res.add("C19-SUBEXPR", c.qual, f"{fld}:conditional", f"{e.qual} evaluates `self.{fld}` whenever it is set, but {c.name}.children() returns it only under a condition on something else ({why}): paths and filters inside it can go unreported", ch.file, ch.line)
                     continue
                 if c in extra and fld == "value":
                     continue  # argument wrappers: Filter.children() returns arg.value for each
@@ -507,6 +573,10 @@ def selftest(repo: Repo):
         v("assign-claims-nothing-extra", T + "assign_tag.py", "        yield self.name\n", '        yield self.name\n        yield Identifier("page", token=self.token)\n', "C19-SCOPE"),
         v("ternary-drops-condition", "liquid/builtin/expressions/filtered.py", "        children = self.left.children()\n        children.append(self.condition)\n", "        children = self.left.children()\n", "C19-SUBEXPR"),
         v("range-drops-stop", "liquid/builtin/expressions/primitive.py", "        return [self.start, self.stop]", "        return [self.start]", "C19-SUBEXPR"),
+        v("loop-children-break-on-first-missing", "liquid/builtin/expressions/loop.py", "        if self.limit is not None:\n            children.append(self.limit)\n\n        if self.offset is not None:\n            children.append(self.offset)\n\n        if self.cols is not None:\n            children.append(self.cols)\n", "        for arg in (self.limit, self.offset, self.cols):\n            if arg is None:\n                break\n            children.append(arg)\n", "C19-SUBEXPR"),
+        lambda: Variant("loop-children-loop-with-continue-is-silent", text_edit(repo, "liquid/builtin/expressions/loop.py", "        if self.limit is not None:\n            children.append(self.limit)\n\n        if self.offset is not None:\n            children.append(self.offset)\n\n        if self.cols is not None:\n            children.append(self.cols)\n", "        for arg in (self.limit, self.offset, self.cols):\n            if arg is None:\n                continue\n            children.append(arg)\n", 1), "C19-", silent=True),
+        v("loop-children-offset-only-with-limit", "liquid/builtin/expressions/loop.py", "        if self.offset is not None:\n            children.append(self.offset)\n", "        if self.offset is not None and self.limit is not None:\n            children.append(self.offset)\n", "C19-SUBEXPR"),
+        v("include-var-only-with-alias", T + "include_tag.py", "        yield self.name\n        if self.var:\n            yield self.var\n", "        yield self.name\n        if self.var and self.alias:\n            yield self.var\n", "C19-EXPR"),
         v("loop-drops-limit", "liquid/builtin/expressions/loop.py", "        if self.limit is not None:\n            children.append(self.limit)\n", "", "C19-SUBEXPR"),
         v("extract-filters-skips-tail", "liquid/static_analysis.py", "        if expression.tail_filters:\n            yield from (\n                (f.name, Span(template_name, f.token.start_index))\n                for f in expression.tail_filters\n            )\n", "", "C19-FILTERS"),
         v("visit-skips-template-scope", "liquid/static_analysis.py", "        for ident in node.template_scope():\n            scope.add(ident)", "        for ident in ():\n            scope.add(ident)", "C19-VISIT", count=2),
